@@ -19,10 +19,10 @@ _TH = ["C14_guarded_walk", "C14_tree_walk_unguarded_refuted", "C14_tree_walk_tot
        # imported from the owning areas (their lemmas on their models of the current code)
        "C14_objstm_slice", "C14_objstm_header", "C14_objstm_member", "C14_xref_section", "C14_xref_section_cost", "C14_widths", "C14_type0",
        "C14_crypt_key_length", "C14_page_counts", "C14_decoders", "C14_predictor", "C14_import_total", "C14_guard_per_thread",
-       "C14_fax_capacity", "C14_fax_refuted", "C14_full_statement_refuted", "C14_guards_in_source", "C14_budgets_in_source"]
+       "C14_fax_total", "C14_fax_bounded", "C14_full", "C14_guards_in_source", "C14_fax_guards_in_source", "C14_budgets_in_source"]
 THEOREMS = [("PdfV.Properties.C14", n) for n in _TH]
 ANCHORS = ["object/types.rs", "object/color.rs", "object/function.rs", "object/mod.rs", "crypt.rs", "encoding.rs", "enc.rs"]
-MODES = ["num_ps", "num_diff", "num_fnload", "num_tree", "unpredict"]
+MODES = ["num_ps", "num_diff", "num_fnload", "num_tree", "num_fax", "unpredict"]
 CASE_TIMEOUT = 12.0
 MODEL_TIMEOUT = 15.0
 LEVEL_TEXT = ("partial proof: machine-checked theorems for the recursion guard over arbitrary finite graphs, the repaired tree "
@@ -31,7 +31,7 @@ LEVEL_TEXT = ("partial proof: machine-checked theorems for the recursion guard o
               "typed loading is explored (planted graphs), not proved")
 LEVEL_NOTE = ("PROVED (Coq, universally quantified): guarded recursion terminates within depth |graph|+1 and never trips its "
               "assertion; NameTree/NumberTree walks visit each node once, depth <= 32; PostScript calculator (roll/index/parse), "
-              "function type 2, /Differences: no panic for any parameters; fax geometry: exactly the stated class panics (witness replayed). "
+              "function type 2, /Differences, CCITTFax geometry (repaired): no panic for any parameters — C14_full proves the full statement for the own sites. "
               "IMPORTED (theorems of other areas about their models of the repaired code, re-exported): object-stream offsets and members, xref "
               "section counts, CID /W and Type0, crypt key length, page counts, predictor geometry and every decoder, importer termination. "
               "EXPLORED (evidence only): everything else reached by typed loading of planted hostile graphs — every reference-typed "
@@ -81,6 +81,9 @@ def same(a, b):
     # the model predicts a resource blow-up: the implementation runs out of time or memory
     if b[0] == "OK" and b[1] == [b"BLOWUP"]:
         return a[0] in ("TIMEOUT", "ABORT")
+    # num_fax: the model answers for the geometry only; GEOM = the external decoder is called, the outcome is a value or an error
+    if b[0] == "OK" and b[1] == [b"GEOM"]:
+        return a[0] in ("OK", "ERR")
     if a[0] != b[0]:
         return False
     if a[0] == "OK":
@@ -323,11 +326,18 @@ def gen_unpredict(rng, n):
 
 
 def gen_fax(rng, n):
+    eofb = b"\x00\x10\x01"
     for i in range(n):
-        cols = rng.choice([0, 1, 8, 1728, 2**16, 2**16 + 8, 2**32 - 1])
-        rows = rng.choice([0, 1, 2, 2**16, 2**32 - 1])
-        data = bytes(rng.randrange(256) for _ in range(rng.choice([0, 3, 16])))
-        yield Case("num_fax", [rng.choice([b"-1", b"0", b"1"]), d(cols), d(rows), data], model=False, tags=["site:fax"])
+        k = rng.choice([-1, -1, -1, 0, 1, 4, -2**31, 2**31 - 1])
+        cols = rng.choice([0, 1, 8, 1728, 65535, 2**16, 2**16 + 8, 2**31 - 1, 2**32 - 1])
+        rows = rng.choice([0, 1, 2, 100, 65535, 2**16, 2**32 - 1])
+        data = rng.choice([eofb, eofb, b"", bytes(rng.randrange(256) for _ in range(rng.choice([3, 16]))), b"\xff" * 8 + eofb])
+        if 0 < cols < 2**16 and rows < 2**16 and cols * max(rows, 8 * len(data)) > 2**26:
+            rows = rng.choice([0, 1, 2])                 # the padded-rows blow-up (C14-r) is the witness; keep the stream cheap
+            if cols * 8 * len(data) > 2**26:
+                cols = 1728
+        bad = k >= 0 or not (0 < cols < 2**16) or rows >= 2**16
+        yield Case("num_fax", [d(k), d(cols), d(rows), data], expect=err() if bad else None, tags=["site:fax", "fax:refused" if bad else "fax:decoded"])
 
 
 def xref_stream_file(w, index, data, size=5, extra=b""):
@@ -360,7 +370,7 @@ def gen_xref(rng, n):
 def generate(rng, tier):
     k = 1 if tier == "quick" else 8
     gens = [gen_ps(rng, 500 * k), gen_diff(rng, 150 * k), gen_fn(rng, 100 * k), gen_objstm(rng, 250 * k), gen_widths(rng, 250 * k),
-            gen_crypt(rng, 250 * k), gen_pages(rng, 80 * k), gen_tree(rng, 150 * k), gen_unpredict(rng, 200 * k), gen_fax(rng, 60 * k),
+            gen_crypt(rng, 250 * k), gen_pages(rng, 80 * k), gen_tree(rng, 150 * k), gen_unpredict(rng, 200 * k), gen_fax(rng, 200 * k),
             gen_xref(rng, 150 * k)]
     for g in gens:
         for c in g:
@@ -377,8 +387,8 @@ def generate(rng, tier):
     planted = [p for p in planted if p[0].startswith(SITE_TAGS)] + [p for p in planted if not p[0].startswith(SITE_TAGS)]
     planted = planted[:(6000 if tier == "quick" else 30000)]
     for j, (tag, data) in enumerate(planted):
-        o = b"st"[j % 2:j % 2 + 1]
-        ch = b"cn"[(j // 2) % 2:(j // 2) % 2 + 1]
+        # (the shapes of the cross-reference chain behind a prefix run in every configuration under C01; here one each)
+        o, ch = b"st"[j % 2:j % 2 + 1], b"cn"[(j // 2) % 2:(j // 2) % 2 + 1]
         yield Case("walk", [o, ch, data], model=False, tags=["planted", tag.split("=")[0][:60]], note=tag)
 
 
@@ -449,7 +459,7 @@ def classify(case, impl, model):
 
 
 def witness_case(f, c):
-    if c.mode not in MODES or (c.mode == "num_fnload" and c.mfields is None):
+    if c.mode not in MODES or (c.mode == "num_fnload" and c.mfields is None) or f["id"] == "C14-r":
         c.model = False
     if f.get("status") == "fixed":
         c.check = None
